@@ -58,7 +58,7 @@ class AllocGen:
                 self.refs.append(nm)
                 self.site_of[nm] = [self.site_of[a], self.site_of[b]]
                 self.joins.append(nm)
-                return {"k": "select", "name": nm, "cond": r.choice([0, 1]), "a": a, "b": b, "via": r.choice(["select", "select", "if", "for"]), "trips": r.choice([0, 1, 2])}
+                return {"k": "select", "name": nm, "cond": r.choice([0, 1]), "a": a, "b": b, "via": r.choice(["select", "select", "if", "for", "while"]), "trips": r.choice([0, 1, 2])}
         if k == "alloc":
             nm = self.fresh("b")
             el = r.choice(list(ELB))
@@ -146,6 +146,18 @@ def emit(ast, p=(0, 0), fname="f", wrap=True) -> str:
                     e(ind, "} else {")
                     e(ind + 1, f'scf.yield {s["b"]} : {ty}')
                     e(ind, "}")
+                elif s.get("via") == "while":
+                    # a search-style loop: the buffer leaves the scf.while through scf.condition (next to an index), it is
+                    # not an init operand; the loop stops at once, the result is %a
+                    ty = T[s["name"]]
+                    n_ = s["name"][1:]
+                    e(ind, f'%wi{n_}, {s["name"]} = scf.while (%wa{n_} = %c0) : (index) -> (index, {ty}) {{')
+                    e(ind + 1, f"%wc{n_} = arith.cmpi slt, %wa{n_}, %c0 : index")
+                    e(ind + 1, f'scf.condition(%wc{n_}) %wa{n_}, {s["a"]} : index, {ty}')
+                    e(ind, "} do {")
+                    e(ind, f"^bb0(%wx{n_} : index, %wy{n_} : {ty}):")
+                    e(ind + 1, f"scf.yield %wx{n_} : index")
+                    e(ind, "}")
                 elif s.get("via") == "for":
                     # a loop-carried buffer: the loop result is %a after zero trips, %b otherwise
                     ty = T[s["name"]]
@@ -180,7 +192,7 @@ def emit(ast, p=(0, 0), fname="f", wrap=True) -> str:
             elif s["k"] in ("view", "cast"):
                 site_of_name[s["name"]] = site_of_name.get(s["src"])
             elif s["k"] == "select":
-                first = (s["trips"] == 0) if s.get("via") == "for" else p[s["cond"]]
+                first = (s["trips"] == 0) if s.get("via") == "for" else (True if s.get("via") == "while" else p[s["cond"]])
                 site_of_name[s["name"]] = site_of_name.get(s["a"] if first else s["b"])
                 joined[s["name"]] = site_of_name[s["name"]]
             for key in ("body", "then", "else"):
